@@ -71,6 +71,9 @@ CHECK_STRINGS = [
     'role:a\tor role:b', '  role:a  and   role:b ', ' ',
     # characters outside ASCII and outside the Basic Multilingual Plane
     "'\U0001f511':%(key)s or role:\u00e9-\U0001f680",
+    # text that is not in Unicode normal form C (combining accent, OHM SIGN,
+    # ANGSTROM SIGN): a check string is data, not prose
+    "role:'Ame\u0301lie' or role:\u2126-\u212b",
 ]
 
 
